@@ -237,3 +237,17 @@ func Explore(cfg ExploreConfig, sc Scenario) *Stats {
 	}
 	return st
 }
+
+// Replay runs one scenario under a recorded choice list and returns the outcome and the readable schedule.
+func Replay(sc Scenario, opts Options, choices []int) (outcome string, trace []string) {
+	body, verdict, _ := sc()
+	x := Run(choices, opts, body)
+	outcome = verdict(x)
+	if outcome == "" {
+		outcome = DefaultOutcome(x)
+	}
+	if outcome == "" {
+		outcome = "ok"
+	}
+	return outcome, Trace(x)
+}
